@@ -317,10 +317,6 @@ def r2_sequence(program, folder, rep):
                                      (V("n"),), ())), k_)
                 if m_ is None or tconst(c_) != B:
                     continue
-                if not (hi_[0] == "binop" and hi_[1] == "Add" and
-                        lo_ in (hi_[2], hi_[3]) and tconst(
-                            hi_[3] if hi_[2] == lo_ else hi_[2]) == B):
-                    continue
                 def sym_t_(t_):
                     e_ = reify(plain(t_))
                     for x_ in ast.walk(e_):
@@ -328,6 +324,13 @@ def r2_sequence(program, folder, rep):
                             y_._parent = x_
                     ast.fix_missing_locations(e_)
                     return fl.sym(e_, n_start)
+                # the piece is B bytes long: hi - lo == B, however the upper
+                # end is written (lo + B, (k + 1) * B, ...)
+                try:
+                    if sym_t_(hi_) - sym_t_(lo_) != Poly.const(B):
+                        continue
+                except AnalysisError:
+                    continue
                 if sym_t_(m_["n"]) != sym_t_(T.term(
                         arg3, T.cfg.node_containing(c_start))) + 1:
                     raise AnalysisError("boot: the blocks are cut by block "
@@ -1100,6 +1103,72 @@ def r3_every_option_applied(program, rep):
                            hits[0].lineno if hits else 0),
                   positive=True)
 
+
+def r3_options_not_truth_tested(program, rep):
+    """boot() does not replace an option value by something else on a truth
+    test (``sv_overrides[name] or default``): 0 is a value a caller sets
+    (led0=0, soft_wdog=0)."""
+    fn = program.get(MOD + ":boot")
+    inst = qual(fn)
+    opts = {"sv_overrides"}
+    if fn.args.kwarg is not None:
+        opts.add(fn.args.kwarg.arg)
+    for n in ast.walk(fn):
+        if isinstance(n, ast.Assign) and len(n.targets) == 1 and \
+                isinstance(n.targets[0], ast.Name) and any(
+                    isinstance(x, ast.Name) and x.id in opts
+                    for x in ast.walk(n.value)) and isinstance(
+                        n.value, (ast.Call, ast.Dict, ast.DictComp)):
+            opts.add(n.targets[0].id)
+
+    def is_option_value(e):
+        if isinstance(e, ast.Subscript) and isinstance(e.value, ast.Name) \
+                and e.value.id in opts:
+            return True
+        if isinstance(e, ast.Call) and isinstance(e.func, ast.Attribute) \
+                and e.func.attr == "get" and isinstance(
+                    e.func.value, ast.Name) and e.func.value.id in opts \
+                and len(e.args) == 1:
+            return True
+        return False
+    # loop variables over the items of an options dictionary
+    vals = set()
+    for lp in ast.walk(fn):
+        it, tg = None, None
+        if isinstance(lp, ast.For):
+            it, tg = lp.iter, lp.target
+        elif isinstance(lp, ast.comprehension):
+            it, tg = lp.iter, lp.target
+        if it is None or not isinstance(tg, (ast.Tuple, ast.List)) or \
+                len(tg.elts) != 2 or not isinstance(tg.elts[1], ast.Name):
+            continue
+        if any(isinstance(x, ast.Name) and x.id in opts
+               for x in ast.walk(it)):
+            vals.add(tg.elts[1].id)
+    hits = []
+    for n in ast.walk(fn):
+        if isinstance(n, ast.BoolOp) and isinstance(n.op, ast.Or):
+            first = n.values[0]
+            if is_option_value(first) or (isinstance(first, ast.Name) and
+                                          first.id in vals):
+                hits.append(n)
+        elif isinstance(n, (ast.If, ast.IfExp)):
+            t = n.test
+            while isinstance(t, ast.UnaryOp) and isinstance(t.op, ast.Not):
+                t = t.operand
+            if is_option_value(t) or (isinstance(t, ast.Name) and
+                                      t.id in vals):
+                hits.append(n)
+    rep.check(not hits, "C20-R3", inst, "no option value is replaced or "
+              "passed over on a truth test in boot()",
+              construct="option value truth-tested",
+              node=hits[0] if hits else fn,
+              fail="boot() decides by the truth value of an option (line "
+                   "%d: %s): an option the caller set to 0 is treated as "
+                   "not given" % (hits[0].lineno if hits else 0,
+                                  unparse(hits[0])[:60] if hits else ""),
+              positive=True)
+
 def check(program, rep):
     program.module(MOD)
     folder = Folder(program)
@@ -1112,6 +1181,7 @@ def check(program, rep):
     rep.guard("C20-R3", r3_callers_files, program, rep)
     rep.guard("C20-R3", r3_numbers, program, rep)
     rep.guard("C20-R3", r3_every_option_applied, program, rep)
+    rep.guard("C20-R3", r3_options_not_truth_tested, program, rep)
     rep.guard("C20-R4", r4_packet, program, folder, rep)
     # the packed configuration is only as good as the table that maps the
     # struct file's field codes to struct-module codes (C14-R6)
